@@ -112,7 +112,7 @@ def handlePt (verb : String) (kv : List (String × String)) : String :=
       | some locs, some P =>
           let ps := match P with | none => List.range (locs.length - 1) | some p => p
           "slices=" ++ joinWith ";" (ps.map (fun i => s!"{locs.getD i 0}:{locs.getD (i+1) 0}")) ++
-          " lengths=" ++ rNats (fpLengths locs P)
+          " lengths=" ++ (match fpLengths locs P with | some l => rNats l | none => "ERR IndexError")
       | _, _ => "BAD params"
   | "fused" => match getInts kv "full", getNats kv "P", getNat kv "step" with
       | some full, some P, some step =>
@@ -145,12 +145,13 @@ def handleHd (verb : String) (kv : List (String × String)) : String :=
           | some r => rInts r
           | none => "ERR IndexError"
       | _, _ => "BAD params"
-  | "push" => match getNat kv "ndim", (get kv "ops").bind parseOps, getNat kv "n", getK kv with
-      | some nd, some ops, some n, some k =>
-          joinWith "," ((headPush nd ops n k).map (fun o => match o with
-            | some (n', k') => s!"{n'}:{k'}"
-            | none => "-"))
-      | _, _, _, _ => "BAD params"
+  | "push" => match getNat kv "ndim", getNat kv "np", (get kv "ops").bind parseOps, getNat kv "n", getK kv with
+      | some nd, some np, some ops, some n, some k => (match headPush nd np ops n k with
+          | some r => joinWith "," (r.map (fun o => match o with
+              | some (n', k') => s!"{n'}:{k'}"
+              | none => "-"))
+          | none => "none")
+      | _, _, _, _, _ => "BAD params"
   | "nested" => match getNat kv "n1", getInt kv "k1", getNat kv "n2", getInt kv "k2" with
       -- (n1, k1) = outer head, (n2, k2) = inner head
       | some n1, some k1, some n2, some k2 => let r := headNested n1 k1 n2 k2; s!"{r.1}:{r.2}"
@@ -165,12 +166,13 @@ def handleTl (verb : String) (kv : List (String × String)) : String :=
   | "divisions" => match getInts kv "d" with
       | some d => rInts (tailDivisions d)
       | none => "BAD params"
-  | "push" => match getNat kv "ndim", (get kv "ops").bind parseOps, getNat kv "n" with
-      | some nd, some ops, some n =>
-          joinWith "," ((tailPush nd ops n).map (fun o => match o with
-            | some n' => toString n'
-            | none => "-"))
-      | _, _, _ => "BAD params"
+  | "push" => match getNat kv "ndim", getNat kv "np", (get kv "ops").bind parseOps, getNat kv "n" with
+      | some nd, some np, some ops, some n => (match tailPush nd np ops n with
+          | some r => joinWith "," (r.map (fun o => match o with
+              | some n' => toString n'
+              | none => "-"))
+          | none => "none")
+      | _, _, _, _ => "BAD params"
   | "nested" => match getNat kv "n1", getNat kv "n2" with
       | some n1, some n2 => toString (tailNested n1 n2)
       | _, _ => "BAD params"
@@ -209,7 +211,10 @@ def handleLn (verb : String) (kv : List (String × String)) : String :=
       | some ew, some deps => (match Divs.lengthsRule ew deps with | some i => s!"child:{i}" | none => "none")
       | _, _ => "BAD params"
   | "pqlengths" => match getNats kv "stats", (get kv "P").bind optNats with
-      | some stats, some P => rNats (Divs.pqLengths stats P)
+      | some stats, some P => (match Divs.pqLengths stats P with | some l => rNats l | none => "ERR KeyError")
+      | _, _ => "BAD params"
+  | "pqlengthsarrow" => match getNats kv "stats", (get kv "P").bind optNats with
+      | some stats, some P => (match Divs.pqLengthsArrow stats P with | some l => rNats l | none => "ERR IndexError")
       | _, _ => "BAD params"
   | _ => "BAD verb"
 
